@@ -987,6 +987,8 @@ class Interp:
             return (a is b) == isinstance(op, ast.Eq)
         if isinstance(a, (tuple, list, dict)) and isinstance(b, (tuple, list, dict)) and isinstance(op, (ast.Eq, ast.NotEq)):
             return (a == b) == isinstance(op, ast.Eq)
+        if isinstance(op, (ast.Eq, ast.NotEq)) and ((isinstance(a, Obj) and isinstance(b, (tuple, list, dict))) or (isinstance(b, Obj) and isinstance(a, (tuple, list, dict)))):
+            return isinstance(op, ast.NotEq)  # an opaque stand-in is a GENERIC value: not this particular literal
         a, b = to_poly(a), to_poly(b)
         d = a - b
         self.thresholds_seen.append((a, type(op).__name__, b))
@@ -1375,7 +1377,8 @@ class Interp:
                 native = isinstance(rv_, (set, dict, str, tuple)) and hasattr(type(rv_), name) or (type(rv_) is list and hasattr(list, name))
             except Undecided:
                 native = False
-        if name in self.externals and callable(self.externals[name]) and not native:
+        own_method = isinstance(f, ast.Attribute) and isinstance(f.value, ast.Name) and f.value.id == "self" and f.attr in self.methods
+        if name in self.externals and callable(self.externals[name]) and not native and not own_method:  # self.<method>() is the class's own method
             xa = self.eval_args(e.args)
             xk = self.eval_kwargs(e.keywords)
             try:
